@@ -16,8 +16,10 @@ if os.path.exists('/tmp/seed2res/final.log'):
             rec['evaluated_with'] = ('harness subset of the registered quick check: ' + sub.group(1)) if sub else 'the complete registered quick check'
             final.setdefault(f"{m.group(2)}-{rnd}-{m.group(3)}", {})[m.group(4)] = rec
 rows = []
+OLD = set(open('/tmp/old_harnesses.txt').read().split()) if os.path.exists('/tmp/old_harnesses.txt') else set()
+LATE = {'C01-r2-1', 'C01-r2-2', 'C04-r2-1', 'C04-r2-2', 'C06-r2-1', 'C06-r2-2'}
 for rnd, base, pref in (('r2', '/tmp/seed2out', ''), ('r3', '/tmp/seed3out', 'r3_')):
-    for d in sorted(glob.glob(base + '/C*/[0-9]')):
+    for d in sorted(glob.glob(base + '/C[0-9][0-9]/[0-9]')):
         if not os.path.exists(d + '/patch.diff'): continue
         prop, n = d.split('/')[-2], d.split('/')[-1]
         sid = f"{prop}-{rnd}-{n}"
@@ -45,7 +47,16 @@ for rnd, base, pref in (('r2', '/tmp/seed2out', ''), ('r3', '/tmp/seed3out', 'r3
                 'detected_before_strengthening': bool(first_caught)}
         json.dump(meta, open(out + '/meta.json', 'w'), indent=1)
         fv = ev[caught[0]]['first_violation'] if caught else ''
-        rows.append((sid, ', '.join(files).replace('ddsketch/', ''), 'yes' if first_caught else 'no', ('yes: ' + ', '.join(caught)) if caught else ('NO' if ev else 'not evaluated'), fv[:150]))
-print('| Seed | Files | Caught before strengthening | Caught as committed | First violated obligation |\n|---|---|---|---|---|')
+        hm = re.search(r'harness=(ZZ_\w+)', fv)
+        newh = bool(hm) and hm.group(1) not in OLD
+        late = rnd == 'r3' or sid in LATE
+        if late:
+            meta['check_before_strengthening'] = 'not run: this change was first evaluated after the harnesses of this session had been added'
+            meta['detected_before_strengthening'] = None
+        meta['detecting_harness_added_in_this_session'] = newh
+        json.dump(meta, open(out + '/meta.json', 'w'), indent=1)
+        before = ('not run' if late else ('yes' if first_caught else 'no'))
+        rows.append((sid, ', '.join(files).replace('ddsketch/', ''), before + (' (detecting harness is new)' if newh else ''), ('yes: ' + ', '.join(caught)) if caught else ('NO' if ev else 'not evaluated'), fv[:150]))
+print('| Seed | Files | Caught by the check as it stood at the start of the session | Caught as committed | First violated obligation |\n|---|---|---|---|---|')
 for r in rows: print('| %s | %s | %s | %s | %s |' % r)
-print('\n%d seeds; %d detected by the checks as they stood; %d detected as committed' % (len(rows), sum(1 for r in rows if r[2] == 'yes'), sum(1 for r in rows if r[3].startswith('yes'))))
+print('\n%d seeds; of the %d evaluated against the checks as they stood at the start of the session, %d were detected; %d of %d detected as committed' % (len(rows), sum(1 for r in rows if not r[2].startswith('not run')), sum(1 for r in rows if r[2].startswith('yes')), sum(1 for r in rows if r[3].startswith('yes')), len(rows)))
